@@ -38,7 +38,7 @@ TEST_KEY_FPR = ["917adb684e2e9fb5ed4e59909ddd19a1268b62d0", "0a14b126c986f276831
 
 CORRUPTIONS = ["none", "none", "flip_payload", "flip_header", "flip_signature", "flip_key", "header_truncated", "header_extended",
                "header_trailing_after_hashed_area", "trailer_16bit", "trailer_le", "no_04ff", "sha512", "payload_only",
-               "raw_shape", "upper_hex", "header_swap_bytes"]
+               "raw_shape", "upper_hex", "header_swap_bytes", "strip_leading_zero", "strip_leading_zero_padded"]
 HEADER_LENS = [1, 2, 6, 35, 255, 256, 257, 300, 65535, 65536, 70000]
 
 
@@ -115,6 +115,14 @@ def build(case):
     elif c == "upper_hex":
         f = ["signature", "other_headers"][pos % 2]
         e[f] = e[f].upper()
+    elif c in ("strip_leading_zero", "strip_leading_zero_padded"):
+        # a genuine signature whose first octet is 0x00 (nonce chosen so that R starts with a zero byte), with that octet
+        # removed the way an MPI encoder strips leading zeros - a structural change of the signature bytes
+        e = ref_openpgp.entry(seed, payload, headers=H, signer=keys.make_nonce_signer([124, 569, 636][pos % 3]))
+        if case["see_also"]:
+            e["see_also"] = hashlib.sha1(H).hexdigest()
+        assert e["signature"].startswith("00")
+        e["signature"] = e["signature"][2:] + ("00" if c.endswith("padded") else "")
     elif c == "header_swap_bytes" and len(H) >= 2:
         i = pos % (len(H) - 1)
         e["other_headers"] = (H[:i] + H[i + 1:i + 2] + H[i:i + 1] + H[i + 2:]).hex()
@@ -186,6 +194,11 @@ def check_signable(case):
     key_in_map = pub if g.is_key(pub) else real_pub
     sigs[key_in_map] = e
     env = {"signatures": sigs, "signed": payload}
+    # history probe across modes: the very same envelope is first examined in raw mode (where an OpenPGP-shaped entry
+    # holding a raw-valid signature may legitimately count), then in OpenPGP mode
+    RV.outcome(A.verify_signable, copy.deepcopy(env), [key_in_map], 1, gpg=False)
+    RV.outcome(A.verify_delegation, "x", copy.deepcopy(env), GM.wrap(GM.signed_part("key_mgr", {"x": {"pubkeys": [key_in_map], "threshold": 1}},
+                                                                            version=1)), gpg=False)
     expect = RV.signable(env, [key_in_map], 1, True)
     o, exc = RV.outcome(A.verify_signable, copy.deepcopy(env), [key_in_map], 1, gpg=True)
     bad = RV.mismatch(expect, o)
